@@ -96,6 +96,8 @@ def gen_cases(ctx):
     q = ctx.quick()
     cases = []   # (id, go_line, meta)
     names = ['www.example.com', 'random', 'RaNdOm', 'a.b', 'xn--bcher-kva.example', 'cdn-' + 'x' * 40 + '.example.org']
+    LONG = 'a' * 63 + '.' + 'b' * 63 + '.' + 'c' * 63 + '.' + 'd' * 57 + '.org'      # the longest server name DNS allows (253)
+    names.append(LONG)
     uids = [bytes(range(16)), bytes(16), b'\xff' * 16, None]
     methods = [b'shadowsocks', b'openvpn', b'a', b'twelve_bytes', b'a\x00b', b'\xc3\xa9t\xc3\xa9', None]
     dims = [
@@ -109,6 +111,8 @@ def gen_cases(ctx):
         methods,
     ]
     rows = pairwise(rng, dims, extra_random=30 if q else 600)
+    # the largest first flights: chrome's hello with the longest server name (its GREASE ECH payload has four lengths)
+    rows += [(('direct', 'chrome'), 'aes-gcm', None, False, LONG, 0, None, b'shadowsocks') for _ in range(10 if q else 40)]
     for k, (tb, enc, sid, flag, name, off, uid, method) in enumerate(rows):
         snow = BASE_NOW + rng.randrange(10**9) + rng.randrange(10**7) * 10**9
         if off is None:
